@@ -118,6 +118,11 @@ theorem noise_once_total (c : Cfg R P dims) (hW : 0 < W) :
   rw [List.ofFn_succ, List.flatten_cons, hrest, List.append_nil]
   cases hn : c.noisy <;> simp [draws, hn, List.map_ofFn, Function.comp_def]
 
+/-- `opacus.distributed.average_gradients`: every worker ends with the mean over the workers -/
+theorem average_gradients_eq (x : Fin W → Grad R P dims) (w : Fin W) (p : Fin P) (i : Fin (dims p)) :
+    averageGradients x w p i = (∑ v, x v p i) / (W : R) := by
+  simp [averageGradients, allReduceSum, sumFin_eq_sum]
+
 /-! ## closed form of the release, all workers agree, runs -/
 
 /-- the single-process release in closed form: clip each sample by its own factor, sum, add the
